@@ -26,6 +26,7 @@ import (
 )
 
 type pass struct {
+	Cover  bool
 	Name   string
 	GOARCH string
 	Race   bool
@@ -103,6 +104,9 @@ func buildWorker(buildDir, repo string, p pass) (bin string, hooks bool, out str
 		}
 		if p.Race {
 			args = append(args, "-race")
+		}
+		if p.Cover {
+			args = append(args, "-cover", "-coverpkg=github.com/DanielSvub/anytype,verifharness/cmd/worker")
 		}
 		args = append(args, "-o", bin, "./cmd/worker")
 		cmd := exec.Command("go", args...)
@@ -253,7 +257,7 @@ func run(prop string, cfg propCfg, tier string, seed uint64) int {
 	if tier == "quick" && cfg.QuickShards > 0 && cfg.QuickShards < mainShards {
 		mainShards = cfg.QuickShards
 	}
-	passes := []pass{{Name: "main", Race: cfg.Race, Shards: mainShards}}
+	passes := []pass{{Name: "main", Race: cfg.Race, Shards: mainShards, Cover: os.Getenv("VERIF_NOCOVER") == ""}}
 	if cfg.Arch386 {
 		n := 2
 		if tier == "thorough" {
@@ -297,6 +301,8 @@ func run(prop string, cfg propCfg, tier string, seed uint64) int {
 		cpuLimit = 4000
 	}
 
+	covDir := filepath.Join(workDir, "cov")
+	os.MkdirAll(covDir, 0o755)
 	var runs []*shardRun
 	var mu sync.Mutex
 	var wg sync.WaitGroup
@@ -318,6 +324,9 @@ func run(prop string, cfg propCfg, tier string, seed uint64) int {
 				if p.Race {
 					args = append(args, "-race")
 					env = append(env, "GORACE=halt_on_error=0 log_path="+filepath.Join(workDir, "race."+tag))
+				}
+				if p.Cover {
+					env = append(env, "GOCOVERDIR="+covDir)
 				}
 				sr.ExitCode, sr.Signal, sr.TimedOut = runChild(bins[p.Name], args, env, sr.Log, wall)
 				sr.Result = readResult(resPath)
@@ -426,6 +435,9 @@ func run(prop string, cfg propCfg, tier string, seed uint64) int {
 		}
 	}
 
+	// library coverage reached by this run (evidence only)
+	libCov := coverageSummary(covDir, workDir)
+
 	// thresholds
 	for _, th := range cfg.Thresholds {
 		min := th.Quick
@@ -489,6 +501,10 @@ func run(prop string, cfg propCfg, tier string, seed uint64) int {
 		knownList = append(knownList, k)
 	}
 	sort.Strings(knownList)
+	if agg.Sets == nil {
+		agg.Sets = map[string][]string{}
+	}
+	agg.Sets["library_blocks_executed"] = libCov
 	writeEvidence(prop, cfg, tier, seed, agg, time.Since(t0), len(fresh), inconclusive, hooksState, knownList, hashes)
 
 	if !*keepWork && len(fresh) == 0 && len(inconclusive) == 0 {
@@ -711,6 +727,53 @@ func stripLine(fr string) string {
 		return fr
 	}
 	return fr
+}
+
+// coverageSummary converts the coverage counters the children flushed into "file: hit/total blocks" lines for the
+// library's files (evidence of what the workload actually executed; never part of a verdict).
+func coverageSummary(covDir, workDir string) []string {
+	ents, _ := os.ReadDir(covDir)
+	if len(ents) == 0 {
+		return []string{"no coverage counters were flushed"}
+	}
+	txt := filepath.Join(workDir, "cov.txt")
+	cmd := exec.Command("go", "tool", "covdata", "textfmt", "-i="+covDir, "-o", txt)
+	cmd.Env = goEnv()
+	if out, err := cmd.CombinedOutput(); err != nil {
+		return []string{"covdata failed: " + firstLines(string(out), 2)}
+	}
+	b, err := os.ReadFile(txt)
+	if err != nil {
+		return []string{"no coverage profile"}
+	}
+	type ft struct{ hit, total int }
+	files := map[string]*ft{}
+	for _, line := range strings.Split(string(b), "\n") {
+		if !strings.HasPrefix(line, "github.com/DanielSvub/anytype/") {
+			continue
+		}
+		colon := strings.LastIndex(line, ":")
+		f := strings.Fields(line[colon+1:])
+		if colon < 0 || len(f) != 3 {
+			continue
+		}
+		name := filepath.Base(line[:colon])
+		x := files[name]
+		if x == nil {
+			x = &ft{}
+			files[name] = x
+		}
+		x.total++
+		if f[2] != "0" {
+			x.hit++
+		}
+	}
+	var out []string
+	for name, x := range files {
+		out = append(out, fmt.Sprintf("%s: %d/%d blocks", name, x.hit, x.total))
+	}
+	sort.Strings(out)
+	return out
 }
 
 func loadKnown(path, prop string) map[string]string {
